@@ -405,74 +405,52 @@ def flag_guards(fa, n, FLAGS):
 
 
 def union_stages(run):
-    """staged retries of the union branch, discovered from the child contexts entered with explicit options:
-    [(enter node, options text, flags set True, flags set to something else, other keywords)]"""
+    """the staged retries of the union, read off the stage table of logic_table.py (logical_parse interpreted with every
+    attempt failing, for each combination of the caller's flags): [(signature, name, flags raised, flags lowered, other
+    keywords, {caller flags: entered?})] for every stage that enters its child contexts with explicit options"""
+    from . import logic_table as lt
     f = run.repo.func("utype.parser.rule", "LogicalType.logical_parse")
-    fa = analysis(f)
-    FLAGS = ("no_data_loss", "no_explicit_cast")
+    table = lt.stage_table(run)
+    sigs = []
+    for k in sorted(table):
+        for sg in table[k]:
+            if sg is not None and sg not in sigs:
+                sigs.append(sg)
     out = []
-    for n, c in fa.all_calls():
-        if call_attr(c) != "enter" or kwarg_given(c, "options") is None or branch_of(fa, n) != "|":
-            continue
-        o = kwarg(c, "options")
-        ctor = None
-        if isinstance(o, ast.Call):
-            ctor = o
-        elif isinstance(o, ast.Name):
-            if o.id in fa.rd.locals:
-                cs = [x.node for x in prov(fa).of_name(n, o.id) if x.kind == "call"]
-                ctor = cs[0] if len(cs) == 1 else None
-            else:
-                v = f.module.assigns.get(o.id)
-                ctor = v if isinstance(v, ast.Call) else None
-        if ctor is None or call_attr(ctor) != "Options":
-            raise AnalysisError(f"R18d: cannot resolve the options `{unparse(o)}` of a union stage to an Options(...) call")
-        fl = {k.arg for k in ctor.keywords if k.arg in FLAGS and isinstance(k.value, ast.Constant) and k.value.value is True}
-        lowered = [k.arg for k in ctor.keywords if k.arg in FLAGS and not (isinstance(k.value, ast.Constant) and k.value.value is True)]
-        POLICIES = ("invalid_items", "invalid_keys", "invalid_values")
-        extra = [k.arg for k in ctor.keywords if k.arg not in FLAGS and not (
-            k.arg in POLICIES and isinstance(k.value, ast.Constant) and k.value.value == "throw")]
-        out.append((n, unparse(o), fl, lowered, extra))
-    return f, fa, out
+    for sg in sigs:
+        if sg and sg[0] == "?":
+            raise AnalysisError(f"R18d: cannot resolve the options `{sg[1]}` of a union stage to an Options(...) call")
+        fl = lt.stage_flags(sg)
+        lowered = [k for k, v in sg if k in lt.FLAGS and v is not True]
+        extra = [k for k, v in sg if k not in lt.FLAGS and not (k in lt.POLICIES and v == "throw")]
+        entered = {k: (sg in table[k]) for k in table}
+        out.append((sg, lt.stage_name(sg), fl, lowered, extra, entered))
+    return f, table, out
 
 
 def r18d(run):
     FLAGS = ("no_data_loss", "no_explicit_cast")
-    f, fa, stages = union_stages(run)
+    f, table, stages = union_stages(run)
     run.floor("R18d", "staged retries (child contexts with explicit options) in the union branch", len(stages), 2)
-    for n, var, fl, lowered, extra in stages:
-        guards = flag_guards(fa, n, FLAGS)
-        ok = bool(guards)
-        detail = []
-        if ok:
-            for vals in itertools.product([False, True], repeat=2):
-                env = dict(zip(FLAGS, vals))
-                if not all(env[x] for x in fl):
-                    continue
-                for b, res in guards:
-                    v = _flag_env_eval(b.test, env, res)
-                    if v is None:
-                        raise AnalysisError(f"R18d: cannot evaluate stage guard `{unparse(b.test)}`")
-                    if v == b.polarity:
-                        ok = False
-                        detail.append(f"{env} still enters the stage")
+    for sg, var, fl, lowered, extra, entered in stages:
+        detail = [f"{dict(zip(FLAGS, k))} still enters the stage" for k, v in sorted(entered.items())
+                  if v and fl and all(dict(zip(FLAGS, k))[x] for x in fl)]
         run.check("R18d", f, f"stage `{var}` ({'+'.join(sorted(fl))}) is skipped when the current options already "
-                             f"include its flags", ok, construct=f"stage guard of {var} not monotone",
+                             f"include its flags", not detail and bool(fl),
+                  construct=f"stage guard of [{'+'.join(sorted(fl))}] not monotone",
                   message=f"the retry stage using `{var}` is entered although the context already has "
-                          f"{sorted(fl)} set: " + ("no guard on the flags" if not guards else "; ".join(detail)),
+                          f"{sorted(fl)} set: " + ("; ".join(detail) or "the stage raises no flag"),
                   necessity="a union nested inside a union re-runs the strict stages at every level: the number of "
-                            "conversions multiplies per nesting level (exponential in depth)", node=n.ast)
+                            "conversions multiplies per nesting level (exponential in depth)")
         run.check("R18d", f, f"stage `{var}` only raises conversion flags", not extra and not lowered and bool(fl),
-                  construct=f"stage {var} lowers or adds options",
+                  construct=f"stage [{'+'.join(sorted(fl))}] lowers or adds options",
                   message=f"`{var}` sets {lowered + extra} besides raising {sorted(fl)}: merged into the child context it "
                           f"overrides what the caller asked for",
                   necessity="Options(no_explicit_cast=True) on the caller is switched off inside the stage: a str is cast "
-                            "to int for Union / Optional targets although the plain target refuses it", node=n.ast)
+                            "to int for Union / Optional targets although the plain target refuses it")
     # a final unguarded common stage exists
-    conv = [(n, c) for n, c in fa.all_calls() if is_convert_call(fa, n, c) and branch_of(fa, n) == "|"]
-    unguarded = [n for n, c in conv if not any(opt_attr(x) in FLAGS for b in fa.facts.branch_facts(n)
-                                                 for x in ast.walk(b.test))]
-    run.check("R18d", f, "the union has a final unconditional conversion stage", bool(unguarded),
+    common = all(v and v[-1] is None for v in table.values())
+    run.check("R18d", f, "the union has a final unconditional conversion stage", common,
               construct="no common stage", message="every conversion stage of the union is guarded by the flags")
     # Options.__and__ merges (child options keep the parent's flags) - needed for monotonicity to carry downwards
     g = run.repo.func("utype.parser.options", "Options.__and__")
